@@ -614,6 +614,19 @@ func (fc *fileCtx) instrument(info *types.Info, pkg *types.Package, tick bool) {
 					touch(x.X, "NumCPU")
 					fc.count("numcpu")
 				}
+			case "os":
+				if x.Sel.Name == "Exit" {
+					fc.repl(x.Pos(), x.End(), "simrt.Exit")
+					touch(x.X, "Getpid")
+					fc.count("exit")
+				}
+			case "log":
+				switch x.Sel.Name {
+				case "Fatal", "Fatalf", "Fatalln":
+					fc.repl(x.Pos(), x.End(), "simrt.Log"+x.Sel.Name)
+					touch(x.X, "Println")
+					fc.count("exit")
+				}
 			case "crypto/rand":
 				if x.Sel.Name == "Reader" {
 					fc.repl(x.Pos(), x.End(), "simrt.Entropy()")
